@@ -531,7 +531,7 @@ class RunLengthArray(NPSIndexable, np.lib.mixins.NDArrayOperatorsMixin):
         [0, 1], [0, 0]
         [0, 2]
         """
-        step_size = abs(step)
+        step_size = min(abs(step), max(len(self), 1))  # a step beyond the length selects the first position only (and cannot overflow)
         indices, values = (self._events, self._values)
         if step < 0:
             indices, values = (indices[-1] - indices[::-1], values[::-1])
